@@ -28,7 +28,7 @@ inline(_G + "node_x", _G + "node_y", _G + "node_z")   # node_lon / node_lat have
 
 _XYZ = ", ".join(f"{_e(k)}.values" for k in ("node_x", "node_y", "node_z"))
 _LL_RAD = f"summary('{_C}_xyz_to_lonlat_rad', {_XYZ}, True)"
-contract(_C + "_populate_node_latlon", props=["C04", "C08"],
+contract(_C + "_populate_node_latlon", props=["C04", "C08", "C20"],
          params={"grid": "obj('Grid', attrs='dict')"}, returns="none",
          requires=["has(grid._ds, 'node_x') and has(grid._ds, 'node_y') and has(grid._ds, 'node_z')"],
          ensures=["has(grid._ds, 'node_lon') and has(grid._ds, 'node_lat')",
